@@ -75,7 +75,8 @@ Section WithOracle.
     let w := model_world re_match e msg_of bind_msg hook_msg repr_str dumps sig_order c in
     {| w_bind := fun _ => model_bind_k c K;
        w_setattr := w_setattr w; w_call := w_call w; w_super := w_super w; w_invoke := w_invoke w;
-       w_apply := w_apply w; w_callable := w_callable w; w_repr_str := w_repr_str w; w_json_dumps := w_json_dumps w |}.
+       w_apply := w_apply w; w_callable := w_callable w; w_repr_str := w_repr_str w; w_json_dumps := w_json_dumps w;
+       w_new := w_new w |}.
 End WithOracle.
 
 (* constants are declared fields without a default; names as in [init_dom] *)
